@@ -200,6 +200,10 @@ impl grenad::MergeFunction for Mf {
         if self.fail_at != 0 && n == self.fail_at {
             return Err(format!("verif-merge-fault-{}", n));
         }
+        if self.kind == "first" {
+            // hand back one of the inputs as it came (typically `Cow::Borrowed`): the borrowed-result path
+            return Ok(values[0].clone());
+        }
         Ok(Cow::Owned(apply_mf(&self.kind, &vals)))
     }
 }
@@ -705,6 +709,23 @@ impl Interp {
                     Err(p) => format!("panic {}", panic_name(p)),
                 };
                 let rest = q.borrow().len();
+                // implementation-only oracle (C13 / C11): the verdict is a function of the bytes — it is the
+                // verdict of a plain in-memory open, unless a scheduled failure surfaced with its tag
+                let plain = match catch_unwind(AssertUnwindSafe(|| Reader::new(std::io::Cursor::new(b.clone())))) {
+                    Ok(Ok(rd)) => format!("ok v={} codec={} count={}", rd.file_version() as u32 + 1, codec_id(rd.compression_type()), rd.len()),
+                    Ok(Err(e)) => fmt_err(&e),
+                    Err(p) => format!("panic {}", panic_name(p)),
+                };
+                let mine = if f1.starts_with("ok ") {
+                    let t = tokens_of(&f1);
+                    format!("ok v={} codec={} count={}", t.get("v").cloned().unwrap_or_default(), t.get("codec").cloned().unwrap_or_default(), t.get("count").cloned().unwrap_or_default())
+                } else { f1.clone() };
+                let tagged = toks[2].split(',').filter_map(|t| t.strip_prefix('f')).any(|tag| mine == format!("err io {}", tag));
+                if mine != plain && !tagged {
+                    self.oracle_failures += 1;
+                    self.emit(line, format!("ORACLE-FAIL open_through_a_scheduled_source_gave_{}_but_a_plain_open_of_the_same_bytes_gives_{}", mine.replace(' ', "_"), plain.replace(' ', "_")), format!("rest={}", rest));
+                    return;
+                }
                 self.emit(line, f1, format!("rest={}", rest));
             }
             "openfault" => {
@@ -854,6 +875,82 @@ impl Interp {
                         self.set_file(v1, es, "v1");
                     }
                 }
+            }
+            "!hugeentry" => {
+                // C14 at the API level with BOTH length prefixes wide: a key of klen and a value of vlen bytes
+                // (e.g. 2^21 and 2^28) written by the real writer and read back by the real reader
+                let klen: usize = toks[1].parse().unwrap_or(0);
+                let vlen: usize = toks[2].parse().unwrap_or(0);
+                let r = catch_unwind(AssertUnwindSafe(|| -> Result<(), String> {
+                    let key: Vec<u8> = (0..klen).map(|i| (i % 251) as u8 | 1).collect();
+                    let val: Vec<u8> = (0..vlen).map(|i| (i % 241) as u8).collect();
+                    let mut w = grenad::Writer::memory();
+                    w.insert(b"", b"x").map_err(|e| e.to_string())?;
+                    w.insert(&key, &val).map_err(|e| e.to_string())?;
+                    let mut last = key.clone();
+                    last.push(0xff);
+                    w.insert(&last, b"tail").map_err(|e| e.to_string())?;
+                    let bytes = w.into_inner().map_err(|e| e.to_string())?;
+                    let rd = grenad::Reader::new(std::io::Cursor::new(bytes)).map_err(|e| e.to_string())?;
+                    let mut c = rd.into_cursor().map_err(|e| e.to_string())?;
+                    let e0 = c.move_on_next().map_err(|e| e.to_string())?.map(|(k, v)| (k.len(), v.len()));
+                    if e0 != Some((0, 1)) { return Err(format!("first_entry_{:?}", e0)); }
+                    match c.move_on_next().map_err(|e| e.to_string())? {
+                        Some((k, v)) if k == &key[..] && v == &val[..] => {}
+                        Some((k, v)) => return Err(format!("entry_of_{}+{}_bytes_read_back_as_{}+{}_bytes_or_altered", klen, vlen, k.len(), v.len())),
+                        None => return Err("entry_lost".into()),
+                    }
+                    match c.move_on_next().map_err(|e| e.to_string())? {
+                        Some((k, v)) if k == &last[..] && v == b"tail" => Ok(()),
+                        other => Err(format!("entry_after_the_wide_one_{:?}", other.map(|(k, v)| (k.len(), v.len())))),
+                    }
+                }));
+                let verdict = match r {
+                    Ok(Ok(())) => "ok".to_string(),
+                    Ok(Err(m)) => { self.oracle_failures += 1; format!("ORACLE-FAIL {}", m.replace(' ', "_")) }
+                    Err(p) => { self.oracle_failures += 1; format!("ORACLE-FAIL panic_{}", panic_name(p)) }
+                };
+                self.emit(line, verdict, "-".into());
+            }
+            "!v1big" => {
+                // C10: the V1 trailer's count is a full u64 next to a hard-wired zero index depth: re-trailer
+                // the last levels = 0 file with counts using every byte; open, len and a full scan must be
+                // those of the V2 file (implementation-only oracle)
+                let b = self.last_file.clone();
+                let es = self.last_es.clone();
+                let mut verdict = "skip".to_string();
+                if let Ok(t) = decode::trailer(&b) {
+                    if t.version == 2 && t.levels == 0 {
+                        verdict = "ok".into();
+                        for count in [1u64 << 32, (1u64 << 40) + 7, 1u64 << 56, 0x0123_4567_89ab_cdef, u64::MAX] {
+                            let mut v1 = b[..b.len() - 22].to_vec();
+                            v1.extend_from_slice(&t.root.to_le_bytes());
+                            v1.push(t.codec);
+                            v1.extend_from_slice(&count.to_le_bytes());
+                            v1.extend_from_slice(&0x76324D4Cu32.to_le_bytes());
+                            let r = catch_unwind(AssertUnwindSafe(|| -> Result<(), String> {
+                                let rd = grenad::Reader::new(std::io::Cursor::new(v1)).map_err(|e| format!("open:{}", e))?;
+                                if rd.len() != count { return Err(format!("len={}_for_stored_count_{}", rd.len(), count)); }
+                                if rd.file_version() != grenad::FileVersion::FormatV1 { return Err("version".into()); }
+                                let mut c = rd.into_cursor().map_err(|e| format!("cursor:{}", e))?;
+                                let mut got: Vec<Entry> = Vec::new();
+                                while let Some((k, v)) = c.move_on_next().map_err(|e| format!("scan:{}", e))? {
+                                    got.push((k.to_vec(), v.to_vec()));
+                                    if got.len() > es.len() + 1 { break; }
+                                }
+                                if got != es { return Err(format!("scan_of_{}_entries_returned_{}", es.len(), got.len())); }
+                                Ok(())
+                            }));
+                            match r {
+                                Ok(Ok(())) => {}
+                                Ok(Err(m)) => { verdict = format!("ORACLE-FAIL v1_count_{}_{}", count, m.replace(' ', "_")); break; }
+                                Err(p) => { verdict = format!("ORACLE-FAIL v1_count_{}_panic_{}", count, panic_name(p)); break; }
+                            }
+                        }
+                    }
+                }
+                if verdict.starts_with("ORACLE") { self.oracle_failures += 1; }
+                self.emit(line, verdict, "-".into());
             }
             "truncs" => {
                 let b = self.last_file.clone();
@@ -1668,4 +1765,8 @@ pub fn varint_digest(start: u64, count: u64, stride: u64) -> u64 {
         v += stride;
     }
     h
+}
+
+fn tokens_of(s: &str) -> std::collections::BTreeMap<String, String> {
+    s.split_whitespace().filter_map(|t| t.split_once('=')).map(|(k, v)| (k.to_string(), v.to_string())).collect()
 }
